@@ -28,6 +28,9 @@ HERE = os.path.dirname(os.path.dirname(os.path.abspath(__file__)))
 class Fail:
     """A property violation observed on one case. ``sig`` names the root-cause class."""
 
+    poisons_process = False   # set on a failure after which this process cannot evaluate further cases (threads that
+    #                           wait for ever on a lock inside selfies): it is recorded as found, and the shard stops there
+
     def __init__(self, sig, **details):
         self.sig = sig
         self.details = details
@@ -272,9 +275,16 @@ class Ctx:
         except Exception:
             raise HarnessError("oracle raised on case %s\n%s" % (jdump(case)[:2000], traceback.format_exc()))
 
+    poisoned = None
+
     def check(self, case):
         """evaluate + count + triage, for enumerations (no shrinking). Returns the Result."""
+        if self.poisoned:
+            self.acc.notes["not_run_after_" + self.poisoned] += 1
+            return Result(skipped="process poisoned")
         res = self.evaluate(case)
+        if res.fail is not None and res.fail.poisons_process:
+            self.poisoned = res.fail.sig
         self.acc.count(case, res)
         if res.fail is not None:
             if self.is_known(res.fail.sig):
@@ -288,6 +298,9 @@ class Ctx:
         signature is not an open known finding let Hypothesis shrink it (bounded), keep going
         never. Other unknown signatures met on the way are recorded unshrunk."""
         acc = self.acc
+        if self.poisoned:
+            acc.notes["drive_%s_not_run_after_%s" % (name, self.poisoned)] += 1
+            return False
         state = dict(target=None, best=None, best_size=None, calls=0, t0=None)
         ctx = self
         seen = set()
@@ -339,6 +352,12 @@ class Ctx:
                     if not shrinking:
                         acc.excluded[sig] += 1
                     return
+                if res.fail.poisons_process and not ctx.is_known(sig):
+                    # nothing more can be evaluated in this process: record the case as it is and stop
+                    ctx.poisoned = sig
+                    if state["best"] is None:
+                        acc.add_failure(sig, case, res.fail)
+                    raise _AbortShrink()
                 if state["target"] is None:
                     state["target"] = sig
                     state["t0"] = time.time()
@@ -356,7 +375,7 @@ class Ctx:
         except PropertyFailure:
             pass
         except _AbortShrink:
-            acc.notes["shrink_budget_exhausted"] += 1
+            acc.notes["shrink_stopped_process_poisoned" if self.poisoned else "shrink_budget_exhausted"] += 1
         except hypothesis.errors.HypothesisException as e:
             if state["best"] is None:
                 raise HarnessError("hypothesis error in %s: %r" % (name, e))
